@@ -1604,6 +1604,21 @@ fn c13(r: &Runner) {
             for d in [2usize, 3, 5, 7, 64] {
                 exec(l, bits, Op::root, &[a.clone(), V::n(d)]);
             }
+            // HIGH degrees with a small root: the float estimate lands on the root, the first Newton step overshoots and the
+            // decreasing phase walks down one by one - the longest runs of the iteration
+            if i < 8 {
+                for r0 in [2u32, 3, 87, 1000, 65_537] {
+                    let d = ((bits as f64) * 0.97 / ((r0 + 1) as f64).log2()) as usize;
+                    let lo = BigUint::from(r0).pow(d as u32);
+                    let hi = BigUint::from(r0 + 1).pow(d as u32);
+                    for v in [&hi - 1u32, lo.clone() + 1u32, (&lo + &hi) >> 1usize, lo.clone(), &hi - (&hi >> 7usize)] {
+                        if v.bits() as usize <= bits {
+                            exec(l, bits, Op::root, &[V::U(to_limbs(&v, bits)), V::n(d)]);
+                            exec(l, bits, Op::root, &[V::U(to_limbs(&v, bits)), V::n(d + 1)]);
+                        }
+                    }
+                }
+            }
             for b in [BigUint::from(3u32), BigUint::from(7u32), BigUint::from(10u32), BigUint::from(u64::MAX), pow2(1000) + 1u32] {
                 exec(l, bits, Op::log, &[a.clone(), V::U(to_limbs(&b, bits))]);
             }
